@@ -57,6 +57,11 @@ LEAVES = {
     "rleavemid": {"res": [{"k": "leaves", "type": "sick", "a": "D1-13:00", "b": "D1-14:40"}]},
     "pvacmid": {"vac": [("D2-09:00", "D2-10:20")]},
     **_multi_layouts(),
+    # days off INSIDE other days off of the same kind (the enclosing one goes on after the inner one ended), and touching ones
+    "pvacnest": {"vac": [("D1", "D9"), ("D2", None), ("D3", "D4"), ("D9", None)]},
+    "gleavenest": {"gl": [("holiday", "D1", "D9"), ("holiday", "D2", None), ("holiday", "D3", "D4")]},
+    "rleavenest": {"res": [{"k": "leaves", "type": "annual", "a": "D1", "b": "D9"}, {"k": "leaves", "type": "sick", "a": "D2"},
+                           {"k": "vacation", "a": "D3", "b": "D4"}]},
     "span-start": {"res": [{"k": "leaves", "type": "annual", "a": "B5", "b": "D2"}]},      # begins 5 days before the project start
     "pspan-start": {"gl": [("holiday", "B3", "D1")]},
 }
